@@ -17,7 +17,7 @@ fn tags_of(clause: &str) -> Vec<&'static str> {
         "st.get_snapshot_data.post" => vec!["C13", "C11", "C06", "C18"],
         "st.get_version_by_parent.post" => vec!["C13", "C01", "C07", "C08", "C06", "C09", "C18"],
         "st.get_version.post" => vec!["C13", "C10", "C11", "C09", "C07", "C18"],
-        "st.add_version.post" => vec!["C13", "C01", "C02", "C06", "C07", "C12"],
+        "st.add_version.post" => vec!["C13", "C01", "C02", "C06", "C07", "C12", "C09"],
         "st.frame" => vec!["C13", "C09", "C12", "C07", "C11"],
         "st.commit" => vec!["C13", "C03", "C05", "C07"],
         "st.drop" => vec!["C13", "C03", "C05", "C18"],
@@ -58,8 +58,9 @@ pub fn leg_sqlconf(thorough: bool) -> Value {
         let mut run = Run::new(BackendKind::Sqlite, (3, 2));
         run.light = true;
         let mut bad = false;
-        for op in pre {
-            if let Err(v) = run.step(op) {
+        for (n, op) in pre.iter().enumerate() {
+            if let Err(mut v) = run.step(op) {
+                crate::explore::isolation_tag(BackendKind::Sqlite, (3, 2), &pre[..=n], &mut v);
                 let mut j = v.to_json();
                 j["clause"] = json!("(state construction)");
                 violations.push(j);
@@ -244,7 +245,7 @@ pub fn leg_sqlconf(thorough: bool) -> Value {
                     }
                     states.insert(format!("{pi}:{:?}", std::mem::discriminant(call)));
                     if let Some(p) = problem {
-                        if violations.len() < 12 {
+                        if violations.iter().filter(|x: &&Value| x["clause"] == json!(clause)).count() < 2 && violations.len() < 30 {
                             let desc = match call {
                                 Call::AddVersion(v, p, s) => format!("add_version({v}, parent {p}, {} bytes)", s.len()),
                                 Call::SetSnapshot(v, vs, d) => format!("set_snapshot(version {v}, versions_since {vs}, {} bytes)", d.len()),
